@@ -178,6 +178,8 @@ async def history(relations=True, wrapped=True, steps=None, duplicates=False):
                 (k, p) = rng.choice(registered)
                 loc = real[(k, p)][2]
                 cut = rng.choice(prefixes(p)[1:])
+                if any(o.loc == k and not beneath(o.path, cut) for q, objs in model.refs.items() if beneath(q, cut) for o in objs):
+                    continue  # a copy of another path of this location is known beneath the cut (see the module docstring)
                 dm.invalidate_location(loc, cut)
                 trace.append(("invalidate_location", k, cut))
                 model.invalidate(k, cut)
